@@ -22,7 +22,7 @@ RULE = (
     "column labels). For detectors four pipelines are run per case and compared with the canonical "
     "representation: fit(R).predict/transform/transform_scores(R); fit(canonical).predict(R); "
     "fit(R[:k]).update(R[k:]).predict(R); for scorers fit(R).evaluate(all admissible cuts). The full "
-    "representation grid (44 for p=1) is used for n=6, a reduced grid of 10 for the other lengths. "
+    "representation grid (47 for p=1, incl. Fortran-ordered and strided arrays) is used for n=6, a reduced grid of 10 for the other lengths. "
     "Non-trivial = the canonical run reports at least one event (detectors) / all (scorers)."
 )
 ASSUMPTIONS = [
@@ -36,6 +36,7 @@ REPS_P1 = (
     + [("series", dt, ik, nm) for dt in ("float64", "int64") for ik in dets.INDEX_KINDS for nm in ("default", "str")]
     + [("nd2", dt, "range", "default") for dt in ("float64", "int64")]
     + [("nd1", dt, "range", "default") for dt in ("float64", "int64")]
+    + [("nd2F", "float64", "range", "default"), ("nd2S", "float64", "range", "default"), ("nd2S", "int64", "range", "default")]
 )
 REPS_P1_SMALL = [
     ("nd2", "float64", "range", "default"), ("nd1", "int64", "range", "default"), ("nd2", "int64", "range", "default"),
@@ -46,6 +47,7 @@ REPS_P1_SMALL = [
 REPS_P2 = (
     [("df", dt, ik, cl) for dt in ("float64", "int64") for ik in dets.INDEX_KINDS for cl in ("default", "str")]
     + [("nd2", dt, "range", "default") for dt in ("float64", "int64")]
+    + [("nd2F", "float64", "range", "default"), ("nd2F", "int64", "range", "default"), ("nd2S", "float64", "range", "default")]
 )
 
 
@@ -60,6 +62,12 @@ def represent(X, rep, lo=0, hi=None, total=None):
     vals = X[lo:hi].astype(dt)
     if cont == "nd2":
         return vals
+    if cont == "nd2F":  # Fortran-ordered array
+        return np.asfortranarray(vals)
+    if cont == "nd2S":  # non-contiguous view (every second row / column of a larger array)
+        big = np.full((2 * vals.shape[0], 2 * vals.shape[1]), -77, dtype=dt)
+        big[::2, ::2] = vals
+        return big[::2, ::2]
     if cont == "nd1":
         return vals[:, 0]
     index = dets.make_index(ik, n)[lo:hi]
@@ -73,7 +81,7 @@ CANON = ("df", "float64", "range", "default")
 
 
 def expected_index(rep, n):
-    if rep[0] in ("nd1", "nd2"):
+    if rep[0].startswith("nd"):
         return pd.RangeIndex(n)
     return dets.make_index(rep[2], n)
 
@@ -86,10 +94,20 @@ def fitted_params(det):
     return out
 
 
+def extra_kw(name):
+    """Fixed NON-INTEGER baseline parameters, so that a dtype- or container-dependent treatment of a
+    hyper-parameter (e.g. casting it to the dtype of the data) is visible."""
+    from skchange.costs import L2Cost
+
+    if name in ("CAPA", "MVCAPA"):
+        return dict(collective_saving=L2Cost(param=0.5), point_saving=L2Cost(param=0.5))
+    return {}
+
+
 def observe(name, X, rep, pipeline, k=None):
     """Run one pipeline; returns a dict of plain observations (or {'exc': name})."""
     kind = dets.kind_of(name)
-    det = dets.make_detector(name)
+    det = dets.make_detector(name, **extra_kw(name))
     n = len(X)
     full = represent(X, rep)
     try:
@@ -162,7 +180,7 @@ def check_det_case(acc, case):
             _CANON_CACHE.clear()
         _CANON_CACHE[ck] = {pl: observe(name, X, CANON, pl, k) for pl in ("same", "update")}
         # update on ndarray: canonical = default-indexed frames for both parts
-        det = dets.make_detector(name)
+        det = dets.make_detector(name, **extra_kw(name))
         try:
             det.fit(pd.DataFrame(X[:k]))
             det.update(pd.DataFrame(X[k:]))
@@ -176,7 +194,7 @@ def check_det_case(acc, case):
     canon = _CANON_CACHE[ck]
     for pl in ("same", "canon-fit", "update"):
         acc.ev()
-        ref = canon["same"] if pl != "update" else (canon["update-nd"] if rep[0] in ("nd1", "nd2") else canon["update"])
+        ref = canon["same"] if pl != "update" else (canon["update-nd"] if rep[0].startswith("nd") else canon["update"])
         if pl == "canon-fit":
             ref = {k2: v for k2, v in ref.items() if k2 in ("events", "fitted", "scores_attr", "exc")}
         if pl == "update":
@@ -198,9 +216,11 @@ def scorer_menu():
     from skchange.costs import GaussianCovCost, GaussianVarCost, L2Cost
 
     return {
-        "L2Cost": (lambda: L2Cost(), 2, 1), "L2Cost(1)": (lambda: L2Cost(param=1.0), 2, 1),
+        "L2Cost": (lambda: L2Cost(), 2, 1), "L2Cost(0.5)": (lambda: L2Cost(param=0.5), 2, 1),
+        "GaussianVarCost(0.5,1.5)": (lambda: GaussianVarCost(param=(0.5, 1.5)), 2, 2),
+        "Saving(L2Cost(1.25))": (lambda: Saving(L2Cost(param=1.25)), 2, 1),
         "GaussianVarCost": (lambda: GaussianVarCost(), 2, 2),
-        "GaussianCovCost(0,1)": (lambda: GaussianCovCost(param=(0.0, 1.0)), 2, None),
+        "GaussianCovCost(0.5,1.5)": (lambda: GaussianCovCost(param=(0.5, 1.5)), 2, None),
         "CUSUM": (lambda: CUSUM(), 3, 1), "ChangeScore(L2Cost)": (lambda: ChangeScore(L2Cost()), 3, 1),
         "L2Saving": (lambda: L2Saving(), 2, 1), "Saving(L2Cost(0))": (lambda: Saving(L2Cost(param=0.0)), 2, 1),
         "LocalAnomalyScore(L2Cost)": (lambda: LocalAnomalyScore(L2Cost()), 4, 1),
